@@ -45,7 +45,7 @@ def run(ctx):
     def frame_reset():
         body = ctx.mir(FC + "::compress")
         effs, _ = flow.field_effects(body, 1)
-        reads = [bi for bi, t, tgt in body.calls() if H.strip_generics(M.call_decl(t) or "").endswith("::Read::read")]
+        reads = flow.call_blocks_through_new(crate, body, lambda decl: decl.endswith("::Read::read"))
         if not reads:
             raise Anchor("source read not found in compress")
         want = {"matcher": ("call", "Matcher::reset"), "last_huff_table": ("assign", None)}
@@ -255,46 +255,61 @@ def run(ctx):
     RL = "C02.pair.block-loop"
 
     def block_loop():
-        b = ctx.hir(FC + "::compress")
-        ix = hq.Index(b)
-        loops = [x for x in hq.find(b["body"], lambda x: x.get("k") == "Loop")]
-        outer = min(loops, key=lambda x: x["sp"][0])
-        inner = [x for x in loops if x is not outer and ix.contains(outer, x)]
-        # last_block flag
-        asg = [(H.show(hq.peel(x["r"])), dom.conds(ix, x, ("if",))) for x in hq.find(outer["body"], lambda x: x.get("k") == "Assign" and H.show(hq.peel(x["l"])) == "last_block")]
-        ok = sorted(a[0] for a in asg) == ["false", "true"]
-        for v, cs in asg:
-            if v == "true":
-                ok = ok and any(c in ("(0 == @Result::unwrap)", "(@Result::unwrap == 0)") for c in cs)
-            else:
-                ok = ok and any("alloc::vec::Vec::len(" in c and "==" in c for c in cs)
-        ctx.check(ok, RL, "compress::last_block-flag", b["file"], "last_block is true iff the source returned 0, false when the block is full",
-                  observed=asg)
+        F = block_facts(ctx)
+        b, ix, pv = F["body"], F["ix"], F["pv"]
+        outer = F["outer"]
+        if outer is None:
+            raise Anchor("block loop not found")
+        # last_block flag: true exactly when a read returned 0, false when the space is full
+        tv = [r for r in F["rows"] if r["value"] is True]
+        fv = [r for r in F["rows"] if r["value"] is False]
+        accn = ix.canon(F["acc"]) if F["acc"] is not None else "?"
+        ok = len(F["rows"]) == 2 and len(tv) == 1 and len(fv) == 1
+        if ok:
+            ok = any(pos and F["READ"].fullmatch(c[len("(0 == "):-1]) is not None for pos, c, _, _ in tv[0]["conds"] if c.startswith("(0 == "))
+            okf = any(pos and cn in ("(%s == alloc::vec::Vec::len(%s))" % (accn, ix.canon(F["resize"][0]["recv"]) if F["resize"] else "?"),
+                                     "(%s == core::slice::len(%s))" % (accn, ix.canon(F["resize"][0]["recv"]) if F["resize"] else "?"))
+                      or (pos and cn.startswith("(%s == " % accn) and "len(" in cn and pvv.endswith("len(%s))" % SPACE_))
+                      for pos, pvv, cn, _ in fv[0]["conds"])
+            okn = any((not pos) and c.startswith("(0 == ") and F["READ"].fullmatch(c[len("(0 == "):-1]) is not None for pos, c, _, _ in fv[0]["conds"])
+            ok = ok and okf and okn
+        ctx.check(ok and F["read_ok"] and F["adv_ok"], RL, "compress::last_block-flag", b["file"],
+                  "last_block is true iff the source returned 0, false when the block is full; every read appends at the running "
+                  "count and advances it by what the read returned",
+                  observed=[(r["value"], [c[2] for c in r["conds"]][-2:]) for r in F["rows"]])
         # exits of the outer loop
         from ..rules import inventory as INV
         ex = INV._loop_exits(ix, outer)
         brk = [e for e in ex if e.startswith("break")]
-        okx = len(brk) == 2 and any(e == "break if @mut:last_block" or e.endswith("last_block") for e in brk) and any("is_empty" in e or "0 == " in e for e in brk)
+        fl_ = ix.canon(F["flag"])
+        def is_flag_exit(e):
+            cs = e[len("break if "):].split(" && ")
+            return fl_ in cs and all(c == fl_ or (c.startswith("(0 != ") and "len(" in c) for c in cs)
+        okx = len(brk) == 2 and any(is_flag_exit(e) for e in brk) and any(e.startswith("break if (0 == ") and "len(" in e and "&&" not in e for e in brk)
         ctx.check(okx, RL, "compress::loop-exits", b["file"], "the block loop ends only on the last block or after the empty-input block", observed=ex)
         # headers
         hs = hq.struct_lits(outer["body"], "BlockHeader")
         vals = []
+        cnt = ix.canon(F["count"]) if F["count"] is not None else "?"
         for l in hs:
-            f = {x["name"]: H.show(hq.peel(x["e"])) for x in l["fields"]}
-            vals.append((f.get("last_block"), f.get("block_type", "").split("::")[-1], f.get("block_size"), dom.conds(ix, l, ("if", "arm"))[:1]))
-        ok = len(vals) == 2 and ("true", "Raw", "0") == vals[0][:3] and any("is_empty" in c or "0 == " in c for c in vals[0][3]) and \
-            vals[1][0] == "last_block" and vals[1][1] == "Raw"
-        ctx.check(ok, RL, "compress::headers-carry-loop-flag", b["file"],
-                  "the empty-input block is a last raw block of size 0; the uncompressed level writes the loop's flag", observed=vals)
-        cf = dom.one_call(b, "compress_fastest")
-        args = [H.show(hq.peel(a)) for a in cf["args"]]
-        ctx.check(args[1:] == ["last_block", "uncompressed_data", "output"], RL, "compress::fastest-gets-flag-and-block", H.loc(b, cf),
-                  "compress_fastest receives the loop's flag and the block buffer", observed=args)
+            f = {x["name"]: x["e"] for x in l["fields"]}
+            vals.append((ix.canon(f["last_block"]), ix.canon(f["block_type"]).split("::")[-1], ix.canon(f["block_size"]),
+                         [c for c in dom.conds(ix, l, ("if", "arm")) if "len(" in c][:1]))
+        want_size = "core::result::Result::unwrap(core::convert::TryInto::try_into(%s))" % cnt
+        ok = len(vals) == 2 and ("true", "Raw", "0") == vals[0][:3] and any(c.startswith("(0 == ") for c in vals[0][3]) and \
+            vals[1][:3] == (fl_, "Raw", want_size)
+        ctx.check(ok and F["count_ok"], RL, "compress::headers-carry-loop-flag", b["file"],
+                  "the empty-input block is a last raw block of size 0; the uncompressed level writes the loop's flag and the number "
+                  "of bytes read", observed=vals)
+        cf = F["cf"]
+        args = [pv(a) for a in cf["args"]]
+        ctx.check(args[1:3] == [pv(F["flag"]), SPACE_] and F["count_ok"], RL, "compress::fastest-gets-flag-and-block", H.loc(b, cf),
+                  "compress_fastest receives the loop's flag and the block buffer (truncated to the bytes read)", observed=args[1:])
         fb = ctx.hir(FAST)
         fl = [{x["name"]: hq.Canon(fb)(x["e"]) for x in l["fields"]}.get("last_block") for l in hq.struct_lits(fb["body"], "BlockHeader")]
         ctx.check(fl == ["$1", "$1", "$1"], RL, "compress_fastest::headers-carry-flag", fb["file"], "all three block headers carry the caller's flag", observed=fl)
         # the empty special case serialises and breaks before any other emission; every other iteration emits exactly once
-        m = [x for x in hq.find(outer["body"], lambda x: x.get("k") == "Match" and "compression_level" in H.show(x["scrut"]))]
+        m = [x for x in hq.find(outer["body"], lambda x: x.get("k") == "Match" and ix.canon(x["scrut"]) == "self.compression_level")]
         ok = len(m) == 1
         if ok:
             arms = {H.show_pat(a["pat"]).split("::")[-1].strip("{}"): a for a in m[0]["arms"]}
@@ -302,13 +317,10 @@ def run(ctx):
                 len([x for x in hq.find(arms["Uncompressed"]["body"], lambda x: x.get("k") == "MethodCall" and x["name"] == "extend_from_slice")]) == 1
         ctx.check(ok, RL, "compress::one-emission-per-block", b["file"], "each block buffer is handed to exactly one emission")
         wa = [x for x in hq.find(outer["body"], lambda x: x.get("k") == "MethodCall" and x["name"] == "write_all")]
-        cl = [x for x in hq.find(outer["body"], lambda x: x.get("k") == "MethodCall" and x["name"] == "clear" and H.show(hq.peel(x["recv"])) == "output")]
-        ok = len(wa) == 2 and len(cl) == 2 and all(H.show(hq.peel(x["args"][0])) == "output" for x in wa)
+        outn = ix.canon(cf["args"][3])
+        cl = [x for x in hq.find(outer["body"], lambda x: x.get("k") == "MethodCall" and x["name"] == "clear" and ix.canon(x["recv"]) == outn)]
+        ok = len(wa) == 2 and len(cl) == 2 and all(ix.canon(x["args"][0]) == outn for x in wa)
         ctx.check(ok, RL, "compress::output-flushed-and-cleared-per-block", b["file"], "the output buffer is written to the drain and cleared once per block")
-        # size of the uncompressed header = bytes read
-        ub = [l for l in hs if "read_bytes" in H.show(l)]
-        ctx.check(len(ub) == 1 and "read_bytes.try_into().unwrap()" in H.show(ub[0]), RL, "compress::uncompressed-size-is-bytes-read", b["file"],
-                  "a raw block's size is the number of bytes read")
     ctx.guard(RL, "block_loop", block_loop)
 
     # ---- wire format of what the compressor writes -------------------------------------------------------
@@ -330,6 +342,64 @@ def run(ctx):
     ctx.obs[before:] = [o for o in ctx.obs[before:]
                         if not (o.key.endswith("::length-and-modes-byte") or o.key == "reader::empty-input-refused-first")]
     ctx.floor("C02.wire", len([o for o in ctx.obs[before:] if o.cfg == ctx.cfg]), 60, "writer-side wire-format obligations")
+
+
+SRC_ = "core::option::Option::unwrap(core::option::Option::as_mut(self.uncompressed_data))"
+SPACE_ = "ruzstd::encoding::Matcher::get_next_space(self.state.matcher)"
+
+
+def block_facts(ctx):
+    """What compress() does per block, read off value cases and provenance so that the spelling of the read loop
+    (deferred flag + labelled break, `let flag = loop { break v }`, or an extracted helper returning a tuple) does
+    not matter.  -> dict, or raises Anchor."""
+    import re
+    b = ctx.hir(FC + "::compress")
+    ix = hq.Index(b)
+    pv = hq.Canon(b, force=True, max_depth=12)
+    cf = dom.one_call(b, "compress_fastest")
+    flag = hq.peel(cf["args"][1])
+    if flag.get("k") != "Local":
+        raise Anchor("compress_fastest's last-block argument is not a local")
+    fcases = ix.local_value_cases(flag["lid"])
+    READ = re.compile(r"core::result::Result::unwrap\((?:std::io|ruzstd::io_nostd)::Read::read\(%s, %s\[.*\.\.\]\)\)" % (re.escape(SRC_), re.escape(SPACE_)))
+    rows = []
+    for v, site in fcases:
+        pcs = [p for p in ix.path_conditions(site) if p["kind"] in hq.Index.CASE_KINDS and "expr" in p]
+        rows.append({"value": H.lit_val(v) if v is not None else None, "site": site,
+                     "conds": [(p.get("pos", True), pv(p["expr"]), ix.canon(p["expr"]), p) for p in pcs]})
+    # the read call and the accumulator it appends at
+    reads = [x for x, _ in H.walk(b["body"]) if x.get("k") == "MethodCall" and x["name"] == "read" and pv(x["recv"]) == SRC_]
+    acc = None
+    read_ok = False
+    if len(reads) == 1:
+        tgt = hq.peel(reads[0]["args"][0])
+        while tgt.get("k") == "AddrOf":
+            tgt = hq.peel(tgt["e"])
+        rp = hq.range_parts(tgt["idx"]) if tgt.get("k") == "Index" else None
+        if rp is not None and rp[0] is not None and rp[1] is None and pv(tgt["e"]) == SPACE_ and hq.peel(rp[0]).get("k") == "Local":
+            acc = hq.peel(rp[0])
+            read_ok = True
+    adv = []
+    if acc is not None:
+        adv = [x for x, _ in H.walk(b["body"]) if x.get("k") in ("Assign", "AssignOp") and hq.peel(x["l"]).get("k") == "Local" and hq.peel(x["l"])["lid"] == acc["lid"]]
+    adv_ok = len(adv) == 1 and adv[0]["k"] == "AssignOp" and adv[0]["op"] == "+=" and READ.fullmatch(pv(adv[0]["r"])) is not None and \
+        acc is not None and H.lit_val((ix.canon.defs.get(acc["lid"]) or (0, {}))[1]) == 0
+    # the block buffer: the space after `resize(count, 0)`
+    rs = [x for x, _ in H.walk(b["body"]) if x.get("k") == "MethodCall" and x["name"] == "resize" and pv(x["recv"]) == SPACE_]
+    count_ok = False
+    count = None
+    if len(rs) == 1 and H.lit_val(rs[0]["args"][1]) == 0:
+        count = hq.peel(rs[0]["args"][0])
+        if count.get("k") == "Local" and acc is not None:
+            if count["lid"] == acc["lid"]:
+                count_ok = True
+            else:
+                vs = ix.local_value_cases(count["lid"])
+                count_ok = bool(vs) and all(v is not None and hq.peel(v).get("k") == "Local" and hq.peel(v)["lid"] == acc["lid"] for v, _ in vs)
+    loops = [x for x in hq.find(b["body"], lambda x: x.get("k") == "Loop" and ix.contains(x, cf))]
+    outer = min(loops, key=lambda x: x["sp"][0]) if loops else None
+    return {"body": b, "ix": ix, "pv": pv, "cf": cf, "flag": flag, "rows": rows, "READ": READ, "reads": reads, "read_ok": read_ok,
+            "acc": acc, "adv_ok": adv_ok, "resize": rs, "count": count, "count_ok": count_ok, "outer": outer}
 
 
 def _repeat_unreachable(ctx):
